@@ -23,7 +23,7 @@ from ..dispatch import Cond, Slicer, flat
 from ..flags import Evaluator, Sym, Unsupported, all_tags
 from ..flow import dominating_tests
 from ..model import model_of
-from ..siblings import get_siblings
+from ..siblings import get_siblings, undecided
 from ..source import AnalysisError, calls_in, dotted, kwarg, norm, qual_of
 from ..symbols import isinstance_classes
 
@@ -138,22 +138,27 @@ def run(chk):
 
     # ---- R2
     def distinct_tags(mod, stmts_, subject, calls_of_interest):
+        """tags of every builder call reachable in the Union slice for distinct in {True, False}; the slice is evaluated
+        as a whole, so `if nd.distinct: .. else: ..`, conditional expressions and a function value chosen by the flag
+        are all the same to the rule"""
         res = {}
         for flag in (True, False):
             ev = Evaluator({f"{subject}.distinct": flag})
+            ev.skip_loops = True
+            ev.lenient = True
             tags = set()
-            for st in stmts_:
-                for n in ast.walk(st):
-                    if isinstance(n, ast.If) and norm(n.test) == f"{subject}.distinct":
-                        try:
-                            outs = ev.run_block([n], {"df": Sym("df"), "right_df": Sym("right_df"), "left_sel": Sym("l"), "right_sel": Sym("r")})
-                        except Unsupported as u:
-                            raise AnalysisError(f"C07/R2: cannot evaluate distinct dispatch: {u}") from u
-                        for ret, env, _ in outs:
-                            for v in env.values():
-                                for t in all_tags(v):
-                                    if t[0] in ("call", "kw"):
-                                        tags.add(t)
+            try:
+                outs = ev.run_block(stmts_)
+            except Unsupported as u:
+                raise AnalysisError(f"C07/R2: cannot evaluate the Union slice: {u}") from u
+            for ret, env, _ in outs:
+                tags |= {t for t in env.get("__tags__", ()) if t[0] in ("call", "kw")}
+                for k_, v in env.items():
+                    if k_ == "__tags__":
+                        continue
+                    for t in all_tags(v):
+                        if t[0] in ("call", "kw"):
+                            tags.add(t)
             res[flag] = tags
         return res
 
@@ -217,10 +222,13 @@ def run(chk):
     # ---- R4
     ccfg = sib.cfgs["cache"]
     tc = sib.terms("cache", uc)
-    cols = S.normalise(tc["COLS"]["raw"], "Union")
-    chk.ob("R4", ccfg.module, ccfg.func, f"cache Union: cols = {S.show(cols)}", cols == ("keep", S.COLS, ("setof", S.IN)),
-           f"after a union the cache keeps {S.show(cols)}; hidden columns of either side must not stay referable (they do not exist in the stacked result)")  # fmt: skip
+    if not undecided(chk, "R4", tc, "Union in cache"):
+        cols = S.normalise(tc["COLS"]["raw"], "Union")
+        chk.ob("R4", ccfg.module, ccfg.func, f"cache Union: cols = {S.show(cols)}", cols == ("keep", S.COLS, ("setof", S.IN)),
+               f"after a union the cache keeps {S.show(cols)}; hidden columns of either side must not stay referable (they do not exist in the stacked result)")  # fmt: skip
     for name in ("cache", "polars", "sql"):
+        if undecided(chk, "R4", sib.terms(name, uc), f"Union in {name}"):
+            continue
         sel = sib.terms(name, uc)["SEL"]["nf"]
         chk.ob("R4", sib.cfgs[name].module, sib.cfgs[name].func, f"{name} Union: visible = {S.show(sel)}", sel == S.IN,
                f"{name}: visible columns after a union are {S.show(sel)}, documented: the left table's names and order")  # fmt: skip
